@@ -10,12 +10,43 @@ import sys
 import time
 
 binary, wait_s, args = sys.argv[1], float(sys.argv[2]), sys.argv[3:]
+# helper options (before the daemon's own arguments):
+#   --fake-iface NAME : a network interface NAME with a PCI slot appears under /sys/class/net (tmpfs over it)
+#   --first "ARGS"    : an earlier daemon instance is started with ARGS, publishes, and is killed first
+fake_iface, first = None, None
+while args and args[0] in ("--fake-iface", "--first"):
+    if args[0] == "--fake-iface":
+        fake_iface = args[1]
+    else:
+        first = args[1].split()
+    args = args[2:]
 subprocess.run(["mount", "-t", "tmpfs", "tmpfs", "/run"], check=True)
 os.makedirs("/run/chrony", exist_ok=True)
+if fake_iface:
+    subprocess.run(["mount", "-t", "tmpfs", "tmpfs", "/sys/class/net"], check=True)
+    os.makedirs("/sys/class/net/%s/device" % fake_iface)
+    with open("/sys/class/net/%s/device/uevent" % fake_iface, "w") as f:
+        f.write("DRIVER=ena\nPCI_SLOT_NAME=0000:00:05.0\n")
 shm = "/var/run/clockbound/shm"
+gen_before = 0
+if first is not None:
+    p0 = subprocess.Popen([binary] + first, stdout=subprocess.DEVNULL, stderr=subprocess.DEVNULL)
+    t0 = time.time()
+    while time.time() - t0 < wait_s and p0.poll() is None:
+        try:
+            b = open(shm, "rb").read()
+            if len(b) >= 72 and struct.unpack_from("=H", b, 14)[0] not in (0,) and struct.unpack_from("=H", b, 14)[0] % 2 == 0:
+                gen_before = struct.unpack_from("=H", b, 14)[0]
+                break
+        except OSError:
+            pass
+        time.sleep(0.02)
+    if p0.poll() is None:
+        p0.kill()
+    p0.wait()
 p = subprocess.Popen([binary] + args, stdout=subprocess.DEVNULL, stderr=subprocess.PIPE)
 t0 = time.time()
-res = {"exit": None, "segment": None}
+res = {"exit": None, "segment": None, "first_instance_generation": gen_before}
 while time.time() - t0 < wait_s:
     rc = p.poll()
     if rc is not None:
@@ -25,7 +56,7 @@ while time.time() - t0 < wait_s:
         b = open(shm, "rb").read()
         if len(b) >= 72:
             gen = struct.unpack_from("=H", b, 14)[0]
-            if gen != 0 and gen % 2 == 0:
+            if gen != 0 and gen % 2 == 0 and gen != gen_before:
                 res["segment"] = b.hex()
                 break
     except OSError:
